@@ -275,6 +275,10 @@ pub fn check_overlapping(
     // --- online monitor over the call history of one OverlappingState
     let extra = 8usize;
     let clone_at = (h as usize) % (exp.len() + 2);
+    // searchers with a single start kind reject the other anchor mode
+    let one_mode = b.cfg.sk != crate::cfg::SK::Both && matches!(b.s, S::Top(_) | S::D(_));
+    let reject_at = if one_mode && !exp.is_empty() { Some(((h / 7) as usize) % (exp.len() + 1)) } else { None };
+    let interleaved = std::cell::Cell::new(false);
     let res = guard(|| -> Result<(Vec<Option<M>>, Option<Vec<Option<M>>>), String> {
         let mut st = OverlappingState::start();
         let mut seq: Vec<Option<M>> = vec![];
@@ -294,12 +298,30 @@ pub fn check_overlapping(
                 }
                 cloned = Some(seq2);
             }
+            if Some(k) == reject_at {
+                // A request the configuration rejects (the other anchor mode)
+                // on the same state, in the middle of the history: it is
+                // reported as an error (C13) and is no part of the search, so
+                // the occurrences already yielded must not come again and none
+                // may be lost. (Should it be accepted, that is C13's business;
+                // this history then says nothing.)
+                if b.s.try_find_overlapping(mk_input(hay, span, !anchored), &mut st).is_ok() {
+                    return Err("skip".to_string());
+                }
+                interleaved.set(true);
+            }
             b.s.try_find_overlapping(mk_input(hay, span, anchored), &mut st)
                 .map_err(|e| format!("error: {}", e))?;
             seq.push(st.get_match().map(crate::cfg::mm));
         }
         Ok((seq, cloned))
     });
+    if matches!(&res, Ok(Err(e)) if e == "skip") {
+        return;
+    }
+    if interleaved.get() {
+        rep.tally("histories_with_a_rejected_request_interleaved");
+    }
     rep.evals((exp.len() + extra) as u64);
     let api = "overlapping_step";
     match res {
@@ -859,6 +881,59 @@ pub fn run_c03(ctx: &Ctx, rep: &mut Report) {
     drive(ctx, rep, &d, &mut |rep, pats, b, hay, sp| {
         check_overlapping(rep, pats, b, hay, sp, false)
     });
+    many_identifiers_in_one_state(ctx, rep);
+}
+
+/// One automaton state carrying 2^16 pattern identifiers and more (duplicates
+/// of one pattern plus its suffixes): every one must be reported, in supply
+/// order. (The noncontiguous NFA keeps match lists as linked lists and needs
+/// quadratic time to step through one of this size, so it is left out.)
+fn many_identifiers_in_one_state(ctx: &Ctx, rep: &mut Report) {
+    if ctx.tier == Tier::Tiny {
+        return;
+    }
+    let n = [65_535usize, 65_536, 65_537, 70_000][ctx.shard % 4];
+    let imp = [Imp::TopCnfa, Imp::LowDfa, Imp::LowCnfa, Imp::TopDfa, Imp::TopAuto][(ctx.shard / 4) % 5];
+    let mut pats: Vec<Vec<u8>> = vec![b"b".to_vec(), b"xab".to_vec()];
+    pats.extend(std::iter::repeat(b"ab".to_vec()).take(n));
+    pats.push(b"b".to_vec());
+    let cfg = Cfg::new(imp, Kind::Standard).pre(false);
+    let s = match guard(|| cfg.build(&pats)) {
+        Ok(Ok(s)) => s,
+        Ok(Err(e)) => {
+            rep.violation("build:error", format!("build failed: {}", e), case_json(&[], &cfg, b"", (0, 0), false, "build").with("patterns_count", J::i(pats.len())));
+            return;
+        }
+        Err(p) => {
+            rep.violation("build:panic", format!("build panicked: {}", p), case_json(&[], &cfg, b"", (0, 0), false, "build").with("patterns_count", J::i(pats.len())));
+            return;
+        }
+    };
+    let b = Built { cfg, s };
+    let hay = b"zxabz";
+    // (the generic monitor would put 70 000 patterns into every replay file)
+    let o = Oracle::new(&pats, false, Kind::Standard);
+    let exp = o.overlapping(hay, 0, hay.len(), false);
+    let got = call(|| b.s.try_find_overlapping_iter(Input::new(&hay[..]), exp.len() + 8));
+    rep.evals(exp.len() as u64);
+    rep.tally("many_identifier_cases");
+    let small = case_json(&[b"b".to_vec(), b"xab".to_vec()], &b.cfg, hay, (0, hay.len()), false, "overlapping_iter")
+        .with("note", J::s(&format!("patterns: b, xab, then {} copies of ab, then b", n)));
+    match got {
+        Ok(g) if g == exp => {}
+        Ok(g) => rep.violation(
+            &format!("overlapping_iter:{}:many_identifiers:count", b.cfg.imp.name()),
+            format!(
+                "{} patterns end in one state; the overlapping iterator yielded {} matches, the occurrence list has {} (first difference at index {:?})",
+                n + 1,
+                g.len(),
+                exp.len(),
+                g.iter().zip(exp.iter()).position(|(a, b)| a != b)
+            ),
+            small,
+        ),
+        Err(e) => rep.violation(&format!("overlapping_iter:{}:many_identifiers:failure", b.cfg.imp.name()), format!("failed: {}", e), small),
+    }
 }
 
 pub fn run_c09(ctx: &Ctx, rep: &mut Report) {
